@@ -149,7 +149,13 @@ fn oracle(c: &GalCase) -> Verdict {
     let g: usize = match kind { GK::ApplyGalois => 2 * pick_idx(c.elt_sel, n) + 1, GK::RotateRows | GK::RotateVector => gtool.get_elt_from_step(step), _ => 2 * n - 1 };
     let mk_keys = |direct: bool, seeded: bool| -> Result<GaloisKeys, String> {
         catch(|| {
-            let k = if direct { match kind { GK::RotateRows | GK::RotateVector if c.flag => w.keygen.create_galois_keys_from_steps(&[step], seeded), _ => w.keygen.create_galois_keys_from_elts(&[g], seeded) } } else { w.keygen.create_galois_keys(seeded) };
+            // explicit lists: the wanted entry alone, or after other entries that include a repeated element (a list may name an
+            // element twice - two steps can map to one element - and every listed element still has to get its key)
+            let listy = c.elt_sel & 1 == 1;
+            let other = (2 * (1 + (c.elt_sel as usize >> 1) % (n - 1).max(1)) + 1).min(2 * n - 1);
+            let k = if direct { match kind {
+                GK::RotateRows | GK::RotateVector if c.flag => if listy && half > 1 { w.keygen.create_galois_keys_from_steps(&[1, 1 - half as isize, step], seeded) } else { w.keygen.create_galois_keys_from_steps(&[step], seeded) },
+                _ => if listy { w.keygen.create_galois_keys_from_elts(&[other, other, g, 2 * n - 1], seeded) } else { w.keygen.create_galois_keys_from_elts(&[g], seeded) } } } else { w.keygen.create_galois_keys(seeded) };
             if k.contains_seed() { k.expand_seed(&w.context) } else { k }
         })
     };
